@@ -1374,18 +1374,19 @@ theorem parse_scanFloat_realText (sg ip fp : List Byte) (el : Byte) (ex : Option
         | nil => exact absurd rfl hip1
         | cons d u => simp at hdsd; simpa using digit_head_not_sign d _ hdsd.1 t
       | cons a u => simp at hzd; simpa using digit_head_not_sign a _ hzd.1 t
-    unfold scanFloat realText
-    rcases hsg with rfl | rfl | rfl
-    · simp only [List.nil_append, List.append_assoc]
-      split
-      · rename_i r heq; exact absurd heq (hsgn r).2
-      · rename_i r heq; exact absurd heq (hsgn r).1
-      · simp only [hdz, hloop, ipc]
-        cases zs <;> simp [realText]
-    · simp only [List.singleton_append, List.append_assoc, hdz, hloop, ipc]
-      cases zs <;> simp [realText]
-    · simp only [List.singleton_append, List.append_assoc, hdz, hloop, ipc]
-      cases zs <;> simp [realText]
+    have hsp : signPrefix (realText sg (zs ++ ds) fp el ex) = (sg, zs ++ (ds ++ 46 :: (fp ++ exText el ex))) := by
+      unfold realText
+      rcases hsg with rfl | rfl | rfl
+      · simp only [List.nil_append, List.append_assoc]
+        unfold signPrefix
+        split
+        · rename_i r heq; exact absurd heq (hsgn r).2
+        · rename_i r heq; exact absurd heq (hsgn r).1
+        · rfl
+      · simp [signPrefix]
+      · simp [signPrefix]
+    simp only [scanFloat, hsp, hdz, hloop, ipc]
+    rcases hsg with rfl | rfl | rfl <;> cases zs <;> simp [realText]
   rw [hscan, parse_realText sg ipc fp 101 ex hsg hipc1 hipcd hfp (Or.inr rfl) hex, hval]
 
 theorem optDot_cases (r : List Byte) : ((optDot r).1 = [46] ∧ r = 46 :: (optDot r).2) ∨ ((optDot r).1 = [] ∧ (optDot r).2 = r) := by
